@@ -1,6 +1,10 @@
 """C17: smart quotes curl only the quotes that wrap a word, and nothing else."""
+import obl_assembly as A
 import obl_phonetic
 
 
 def run(c):
     obl_phonetic.obl_split(c, 4 if c.tier == "quick" else 5, budget_s=900)
+    if A.validate_assembly_concrete(c):
+        ct = A.conv_table_for([p for w in A.WRAPPERS_QUICK for p in w])
+        A.obl_quote_pair(c, ct, thorough=(c.tier == "thorough"), budget_s=1500)
